@@ -295,7 +295,7 @@ func c16r3(c *core.Ctx) {
 		}
 		returned := false
 		core.Instrs(r, func(j ssa.Instruction) {
-			if ret, ok := j.(*ssa.Return); ok && len(ret.Results) == 2 && ret.Results[1] == errv && core.IsNilConst(ret.Results[0]) {
+			if ret, ok := j.(*ssa.Return); ok && len(res(ret)) == 2 && res(ret)[1] == errv && core.IsNilConst(res(ret)[0]) {
 				returned = true
 			}
 		})
